@@ -83,6 +83,9 @@ func (e *Engine) hashValue(x *hasher, v Value) {
 	case SliceV:
 		x.u64(4)
 		x.u64(x.obj(t.obj))
+		for _, p := range t.path {
+			x.u64(uint64(p) + 1)
+		}
 		x.u64(uint64(t.off.id))
 		x.u64(uint64(t.len.id))
 		x.u64(uint64(t.cap.id))
